@@ -63,6 +63,8 @@ pub fn states(tier: &str) -> Vec<State> {
             }
         }
     }
+    // an element and an attribute of one (or nearly one) name in the holder: two fields, one wire name each
+    out.extend(c02::spelling_collision_states().into_iter().filter(|s| s.label.contains("an element and an attribute")));
     // members inherited from / referring to other namespaces
     out.extend(c08::cross_namespace_states(tier));
     out.extend(c08::three_namespace_chains(tier).into_iter().filter(|s| s.depth == 2));
